@@ -279,6 +279,9 @@ fn mixed_near_black() -> Vec<[f32; 3]> {
 /// returns (pixels, w, h, probe positions)
 fn big_frame(o: &Opts, rng: &mut Rng, k: usize) -> (Vec<[f32; 3]>, usize, usize, Vec<usize>) {
     let (w, h) = [(701usize, 523usize), (1031, 347), (523, 701)][k % 3];
+    big_frame_wh(o, rng, w, h)
+}
+fn big_frame_wh(o: &Opts, rng: &mut Rng, w: usize, h: usize) -> (Vec<[f32; 3]>, usize, usize, Vec<usize>) {
     let n = w * h;
     let mut head = to_pixels(&base_inputs(o, rng));
     head.extend(mixed_near_black());
@@ -373,6 +376,43 @@ pub fn gen_c03(sh: &mut Shards, o: &Opts) -> serde_json::Value {
             }
         }
     }
+    // echo images: [p, f(p), p, p, f(p), f(p)] per pixel p, for every curve class and direction
+    for (ti, &t) in CLASS_REPS.iter().enumerate() {
+        for (di, dir) in ["lin", "gam"].iter().enumerate() {
+            let src: Vec<[f32; 3]> = (0..24).map(|i| [0.03 + 0.04 * i as f32, 0.97 - 0.035 * i as f32, 0.5 + 0.02 * (i as f32 - 12.0)]).collect();
+            let mut echo: Vec<[f32; 3]> = Vec::new();
+            for p in &src {
+                if let Ok(q) = apply(t, dir, &[*p], 1, 1) {
+                    if q.len() == 1 && q[0].iter().all(|x| (0.0..=1.0).contains(x)) {
+                        echo.extend([*p, q[0], *p, *p, q[0], q[0]]);
+                    }
+                }
+            }
+            for (at, w, h) in cut_images(echo.len(), ti + di + 13) {
+                let img = &echo[at..at + w * h];
+                let mut s = String::new();
+                let _ = write!(s, "\"ev\":\"tf\",\"echo\":1,\"tc\":{t},\"dir\":\"{dir}\",\"w\":{w},\"h\":{h},\"x\":");
+                list(&mut s, img, px_fx);
+                match apply(t, dir, img, w, h) {
+                    Ok(out) => {
+                        s.push_str(",\"res\":\"ok\",\"y\":");
+                        list(&mut s, &out, px_fx);
+                        if t == 8 {
+                            s.push_str(",\"xb\":");
+                            list(&mut s, img, px_bits);
+                            s.push_str(",\"yb\":");
+                            list(&mut s, &out, px_bits);
+                        }
+                    }
+                    Err(e) => {
+                        let _ = write!(s, ",\"res\":\"{e}\"");
+                    }
+                }
+                sh.emit(&s);
+                samples += 3 * img.len() as u64;
+            }
+        }
+    }
     // large frames (size-dependent code paths: tables, threads, vector loops).  The interesting VALUES (branch points,
     // near-black ladders, mixed near-black pixels) are placed inside the big frame, at both ends; the rest is random
     // with a near-black admixture.  Only the probed positions are handed to TLC.
@@ -382,6 +422,15 @@ pub fn gen_c03(sh: &mut Shards, o: &Opts) -> serde_json::Value {
             let (px, w, h, idx) = big_frame(o, &mut rng, ti + di);
             emit_tf_probe(sh, "tf", t, dir, &px, w, h, &idx, apply(t, dir, &px, w, h));
             samples += 3 * idx.len() as u64;
+            // more than 2^20 pixels (full HD, single row, single column, 2049x1025): every curve and direction gets one
+            // shape per run (all four in thorough; every fifth pair in the thinned tier C20 uses)
+            let shapes: Vec<usize> = if o.thorough { vec![0, 1, 2, 3] } else if o.mini && (ti + di) % 5 != (o.seed as usize) % 5 { vec![] } else { vec![ti + di + o.seed as usize] };
+            for k in shapes {
+                let (hw, hh) = crate::util::huge(k);
+                let (px, w, h, idx) = big_frame_wh(o, &mut rng, hw, hh);
+                emit_tf_probe(sh, "tf", t, dir, &px, w, h, &idx, apply(t, dir, &px, w, h));
+                samples += 3 * idx.len() as u64;
+            }
         }
     }
     // call-order histories on one thread: a large frame through curve a, then a large frame through curve b (every ordered
@@ -467,6 +516,43 @@ pub fn gen_c10(sh: &mut Shards, o: &Opts) -> serde_json::Value {
         let (px, w, h, idx) = big_frame(o, &mut rng, ti);
         emit_tf_probe(sh, "tfrt", t, "rt", &px, w, h, &idx, apply(t, "lin", &px, w, h).and_then(|m| apply(t, "gam", &m, w, h)));
         samples += 3 * idx.len() as u64;
+        let shapes: Vec<usize> = if o.thorough { vec![0, 1, 2, 3] } else if o.mini && ti % 5 != (o.seed as usize) % 5 { vec![] } else { vec![ti + 1 + o.seed as usize] };
+        for k in shapes {
+            let (hw, hh) = crate::util::huge(k);
+            let (px, w, h, idx) = big_frame_wh(o, &mut rng, hw, hh);
+            emit_tf_probe(sh, "tfrt", t, "rt", &px, w, h, &idx, apply(t, "lin", &px, w, h).and_then(|m| apply(t, "gam", &m, w, h)));
+            samples += 3 * idx.len() as u64;
+        }
+        // echo images: each pixel followed by the library's own result for it and by repeats (a shortcut that compares a
+        // sample with the previous OUTPUT, or run-length handling, shows as a wrong round trip)
+        let src: Vec<[f32; 3]> = (0..24).map(|i| [0.03 + 0.04 * i as f32, 0.97 - 0.035 * i as f32, 0.5 + 0.02 * (i as f32 - 12.0)]).collect();
+        for dir in ["lin", "gam"] {
+            let mut echo: Vec<[f32; 3]> = Vec::new();
+            for p in &src {
+                if let Ok(q) = apply(t, dir, &[*p], 1, 1) {
+                    if q.len() == 1 && q[0].iter().all(|x| (0.0..=1.0).contains(x)) {
+                        echo.extend([*p, q[0], *p, *p, q[0], q[0]]);
+                    }
+                }
+            }
+            for (at, w, h) in cut_images(echo.len(), ti + 11) {
+                let img = &echo[at..at + w * h];
+                let mut s = String::new();
+                let _ = write!(s, "\"ev\":\"tfrt\",\"echo\":1,\"tc\":{t},\"w\":{w},\"h\":{h},\"x\":");
+                list(&mut s, img, px_fx);
+                match apply(t, "lin", img, w, h).and_then(|m| apply(t, "gam", &m, w, h)) {
+                    Ok(out) => {
+                        s.push_str(",\"res\":\"ok\",\"z\":");
+                        list(&mut s, &out, px_fx);
+                    }
+                    Err(e) => {
+                        let _ = write!(s, ",\"res\":\"{e}\"");
+                    }
+                }
+                sh.emit(&s);
+                samples += 3 * img.len() as u64;
+            }
+        }
     }
     // call-order histories: a large round trip through curve a, then through curve b; b is judged
     for (ai, &a) in CLASS_REPS.iter().enumerate() {
